@@ -11,6 +11,12 @@ THEOREMS = ["c04_delete_is_delete_all", "c04_no_dangling", "c04_victims_unreacha
 # scripted beginnings that build the link topologies deletion has to cope with: several sources of
 # ONE subtree linked from the same entity; an array referenced from groups and tags of its block
 PRELUDES = [
+    # nested sources that are linked ONLY from a group's source list (and one also from an array)
+    [["create", 0, "CBlocks", "B", "t", []], ["create", 1, "CSources", "s", "t", []], ["create", 2, "CSources", "c", "t", []],
+     ["create", 3, "CSources", "cc", "t", []], ["create", 2, "CSources", "d", "t", []], ["create", 1, "CGroups", "g", "t", []],
+     ["create", 1, "CGroups", "h", "t", []], ["create", 1, "CDataArrays", "a", "t", [1]],
+     ["append", 6, "LSources", 3], ["append", 6, "LSources", 4], ["append", 7, "LSources", 4], ["append", 7, "LSources", 5],
+     ["append", 8, "LSources", 5], ["append", 6, "LSources", 2]],
     [["create", 0, "CBlocks", "B", "t", []], ["create", 1, "CSources", "s", "t", []], ["create", 2, "CSources", "c", "t", []],
      ["create", 2, "CSources", "d", "t", []], ["create", 1, "CDataArrays", "a", "t", [1, 2]], ["create", 1, "CTags", "t", "t", [1]],
      ["append", 5, "LSources", 3], ["append", 5, "LSources", 4], ["append", 5, "LSources", 2], ["append", 6, "LSources", 3],
